@@ -797,6 +797,16 @@ GRAPH_WITNESSES = [
     ("two producers with an unrelated target between them", {"X": ([], ["f"]), "M": ([], ["m"]), "Y": ([], ["f"])}, ["X", "M", "Y"], set()),
     ("two producers, shared file last and first", {"X": ([], ["x1", "f"]), "Y": ([], ["f", "y1"]), "Z": (["f"], ["z"])}, ["Z", "X", "Y"], set()),
 ]
+# well-formed workflows with a redundant ("transitive") edge - report needs index and map, map needs index - in every definition order and with names sorting both ways:
+# a search that colours a target when it is queued rather than when it is entered takes the sibling that is still queued for a target on the current path
+_TRI = {"qc_report": (["idx", "bam"], ["rep"]), "bwa_index": ([], ["idx"]), "map_reads": (["idx"], ["bam"])}
+_TRI2 = {"a_report": (["idx", "bam"], ["rep"]), "z_index": ([], ["idx"]), "m_map": (["idx"], ["bam"])}
+import itertools as _it
+for _spec in (_TRI, _TRI2):
+    for _order in _it.permutations(list(_spec)):
+        GRAPH_WITNESSES.append((f"acyclic triangle (a redundant edge), defined in the order {', '.join(_order)}", _spec, list(_order), set()))
+GRAPH_WITNESSES.append(("acyclic: two chains sharing their source and their sink, deep side first",
+                        {"S": ([], ["s"]), "L1": (["s"], ["l1"]), "L2": (["l1"], ["l2"]), "R1": (["s"], ["r1"]), "T": (["l2", "r1", "s"], ["t"])}, ["T", "L2", "L1", "R1", "S"], set()))
 
 
 def graph_witnesses(ctx):
@@ -1036,7 +1046,11 @@ def eval_cli_main(ctx, found=True, flag_backend=None, flag_no_color=None, config
     interp = PureInterp(ctx, hooks=hooks)
     cobj = Obj("click_ctx", obj={})
     try:
-        interp.call(main, (cobj, "workflow.py:gwf", flag_backend, verbose, flag_no_color))
+        # options added to the group later are passed the way click passes an option that is not given (its declared default, through its callback)
+        given = dict(zip(main.positional_params(), (cobj, "workflow.py:gwf", flag_backend, verbose, flag_no_color)))
+        dflt = click_defaults(ctx, main)
+        extra = {p_: dflt[p_] for p_ in main.positional_params()[5:] if p_ in dflt}
+        interp.call(main, tuple(given.values()), extra)
     except Raised as exc:
         res["raised"] = exc.kind  # an outcome of the evaluated code, not a limitation of the evaluator
     except Unsupported as exc:
